@@ -27,6 +27,15 @@ CHECKS = [
      "implementation's own matrices.",
      BASE_NOTE + "np.sort/np.searchsorted assumed to sort/binary-search.",
      "Lean 4 proof about a hand-written model + differential correspondence check", "DESIGN.md §5 C01"),
+ chk("C03",
+     "Lean theorems C03_extreme_low / C03_extreme_high / C03_spec_extreme prove for ALL score lists, easy counts, "
+     "6 metrics, 4 configurations, 3 methods and every nextafter oracle with down x < x < up x that a target <= 0 "
+     "(>= 1) yields a threshold at which the metric's count is exactly its lowest (highest) achievable value; "
+     "C03_error_iff covers the ValueError branch. Tied to /repo by a differential run of threshold_at_* and by "
+     "evaluating the Lean predicate C03.extremeOK on the implementation's own matrices (exact integers).",
+     BASE_NOTE + "np.nextafter is an oracle (driver: exact float64 neighbour, cross-checked against numpy); float "
+     "rounding inside the target rescaling is outside the proof and is observed by the exact spec evaluation on every run.",
+     "Lean 4 proof about a hand-written model + differential correspondence check", "DESIGN.md §5 C03"),
 ]
 
 ALL = [f"C{i:02d}" for i in range(1, 21)]
